@@ -54,6 +54,12 @@ CHECKS = {
         "Trusted: harness/src/model/expr.rs (unit-tested on the precedence/associativity examples). number/commodity, commodity/commodity and one-nonzero-commodity-next-to-zero sums are unspecified. Comparison is exact unless an intermediate value is not a 96-bit/28-place decimal (then 1e-20 relative).",
         "4/C08",
     ),
+    "C12": (
+        "runtime monitor: metamorphic comparison of an accepted ledger with its alias-substituted spelling (API and CLI text), plus conflict shapes that must be rejected and controls that must be accepted",
+        "3*10^4 (quick) / 1.5*10^6 (thorough) cases: generated accepted ledgers whose accounts and commodities get 1-3 declared aliases; a variant writing 20-100% of the later occurrences (accounts, commodities in amounts, expressions, costs, lot prices, assertions) through aliases must give identical stored postings and balances, show canonical names only, and identical `okane balance`/`okane register` text; 8 conflict shapes x {account, commodity} must fail with InvalidAccount/InvalidCommodity and 4 conflict-free shapes must be accepted.",
+        "Trusted: the generator's alias pools are disjoint from canonical names. Re-declaring an alias for another canonical name is outside the statement.",
+        "4/C12",
+    ),
 }
 
 NOT_APPLICABLE = []
